@@ -433,8 +433,10 @@ func vf15Run(st *vfStats, t vfFataler, c vf15Case) {
 	if c.Mode == vf15RejectCB {
 		ccfg.EncryptedClientHelloRejectionVerify = func(cs ConnectionState) error {
 			cbCalled++
-			if len(cs.PeerCertificates) == 0 || !cs.PeerCertificates[0].Equal(publicLeaf.Leaf) {
-				return errors.New("vf: rejection callback did not see the public certificate")
+			// Not asserted: like upstream crypto/tls (1.23 - 1.26) the callback runs before c.peerCertificates is
+			// assigned, so cs.PeerCertificates is empty here. The property says nothing about the callback's view.
+			if len(cs.PeerCertificates) == 0 {
+				st.Class("rejection-callback-saw-no-peer-certificates(upstream behaviour)")
 			}
 			return nil
 		}
